@@ -136,6 +136,7 @@ func c14Scenario(c *fw.Ctx, s int) {
 		id         int
 		qos        int
 		localFails bool
+		replyLost  int // node whose reply to the forwarding call is lost once (-1: none)
 	}
 	sent := []*sentMsg{}
 	seqNo := 0
@@ -183,7 +184,7 @@ func c14Scenario(c *fw.Ctx, s int) {
 			}
 			// every subset of the other nodes unreachable
 			for mask := 0; mask < 1<<len(others); mask++ {
-				m := &sentMsg{topic: topic, pub: pi, unreach: map[int]bool{}, dests: map[int]bool{}}
+				m := &sentMsg{topic: topic, pub: pi, unreach: map[int]bool{}, dests: map[int]bool{}, replyLost: -1}
 				for b, o := range others {
 					if mask&(1<<b) != 0 {
 						m.unreach[o] = true
@@ -212,6 +213,21 @@ func c14Scenario(c *fw.Ctx, s int) {
 					nodes[pn].Log.SetFail(func(*packet.Publish, int) error { return errors.New("injected local log failure") })
 					m.expectAck = false
 					c.Observe("publishes_with_local_log_failure", 1)
+				}
+				// in a quarter of the cases the reply of one reachable remote destination is lost once: the
+				// node has appended the message, the caller sees an error
+				cl.LoseReplies(1, 0)
+				cl.LoseReplies(2, 0)
+				cl.LoseReplies(3, 0)
+				if (seqNo+s)%4 == 1 {
+					for _, o := range others {
+						if m.dests[o] && !m.unreach[o] {
+							m.replyLost = o
+							cl.LoseReplies(uint64(o+1), 1)
+							c.Observe("publishes_with_lost_reply", 1)
+							break
+						}
+					}
 				}
 				seqNo++
 				m.tag = fmt.Sprintf("c14-%d-%d", s, seqNo)
@@ -245,7 +261,7 @@ func c14Scenario(c *fw.Ctx, s int) {
 					c.Violation("local-append-missing", fmt.Sprintf("scenario %d: publish on %q from n%d was never appended to the publisher node's own log although it hosts a matching subscription", s, topic, pn+1), wit(m, nil))
 					return
 				}
-				if m.expectAck {
+				if m.expectAck && m.replyLost < 0 {
 					ackType := kit.PUBACK
 					if m.qos == 2 {
 						ackType = kit.PUBCOMP
@@ -266,6 +282,7 @@ func c14Scenario(c *fw.Ctx, s int) {
 	// barrier: everything reachable again, sentinel to all
 	for i := 0; i < nNodes; i++ {
 		cl.SetUnreachable(uint64(i+1), false)
+		cl.LoseReplies(uint64(i+1), 0)
 		nodes[i].Log.SetFail(nil)
 	}
 	if acked, err := pubs[0].Publish("zz/c14", []byte("END"), 1, false, kit.DefaultWait); !acked {
@@ -278,7 +295,75 @@ func c14Scenario(c *fw.Ctx, s int) {
 			return
 		}
 	}
+	// a subscription removed between two publishes on one topic: the second is no longer written to it
+	var left *c14Sub
+	leftTopic, leftFilter := "", ""
+	for _, su := range subs {
+		for _, f := range su.filters {
+			for _, t := range c14Topics {
+				if left == nil && model.Match(f, t) {
+					only := true
+					for _, g := range su.filters {
+						if g != f && model.Match(g, t) {
+							only = false
+						}
+					}
+					if only {
+						left, leftTopic, leftFilter = su, t, f
+					}
+				}
+			}
+		}
+	}
+	leftTags := []string{}
+	if left != nil {
+		for k := 0; k < 3; k++ {
+			tag := fmt.Sprintf("c14-%d-burst%d", s, k)
+			if acked, err := pubs[0].Publish(leftTopic, []byte(tag), 1, false, kit.DefaultWait); !acked {
+				c.Inconclusive(fmt.Sprintf("burst publish not acknowledged: %v", err))
+				return
+			}
+			if k == 0 {
+				if _, _, err := left.cl.WaitFor(0, 30*time.Second, func(e kit.Event) bool { return e.Pkt.Type == kit.PUBLISH && string(e.Pkt.Payload) == tag }); err != nil {
+					c.Inconclusive("burst publish not delivered: " + err.Error())
+					return
+				}
+				if err := left.cl.Unsubscribe([]string{leftFilter}); err != nil {
+					c.Inconclusive("unsubscribe: " + err.Error())
+					return
+				}
+				cl.Quiesce()
+			} else {
+				leftTags = append(leftTags, tag)
+			}
+		}
+	}
+	if left != nil {
+		if acked, err := pubs[0].Publish("zz/c14", []byte("END2"), 1, false, kit.DefaultWait); !acked {
+			c.Inconclusive(fmt.Sprintf("sentinel not acknowledged: %v", err))
+			return
+		}
+		for i, su := range subs {
+			if _, _, err := su.cl.WaitFor(0, 60*time.Second, func(e kit.Event) bool {
+				return e.Pkt.Type == kit.PUBLISH && e.Pkt.Topic == "zz/c14" && string(e.Pkt.Payload) == "END2"
+			}); err != nil {
+				c.Inconclusive(fmt.Sprintf("scenario %d: subscriber %d never saw the second sentinel: %v", s, i, err))
+				return
+			}
+		}
+	}
 	time.Sleep(100 * time.Millisecond) // late (wrong) acknowledgements get a chance to show up
+	if left != nil {
+		for _, p := range left.cl.Publishes() {
+			for _, tag := range leftTags {
+				if string(p.Payload) == tag {
+					c.Violation("delivery-after-unsubscribe", fmt.Sprintf("scenario %d: a subscriber on n%d unsubscribed %q (UNSUBACK received, gossip settled) between two publishes on %q and still received the later one", s, left.node+1, leftFilter, leftTopic),
+						wit(nil, map[string]interface{}{"filter": leftFilter, "topic": leftTopic, "tag": tag}))
+				}
+			}
+		}
+		c.Observe("unsubscribe_between_same_topic_publishes", 1)
+	}
 	// verdicts
 	for _, m := range sent {
 		pn := pubNode[m.pub]
@@ -307,10 +392,13 @@ func c14Scenario(c *fw.Ctx, s int) {
 				acks++
 			}
 		}
-		if !m.expectAck && acks > 0 {
+		if m.replyLost >= 0 {
+			// whether the publisher is acknowledged after a lost reply is not judged; that the message is
+			// appended once is
+		} else if !m.expectAck && acks > 0 {
 			c.Violation("ack-despite-unreachable-destination", fmt.Sprintf("scenario %d: publish on %q from n%d was acknowledged although destination node(s) %v were unreachable", s, m.topic, pn+1, keys1(m.unreach)), wit(m, nil))
 		}
-		if m.expectAck && acks != 1 {
+		if m.replyLost < 0 && m.expectAck && acks != 1 {
 			c.Violation("ack-count", fmt.Sprintf("scenario %d: publish on %q got %d acknowledgements", s, m.topic, acks), wit(m, nil))
 		}
 		for si, su := range subs {
@@ -361,7 +449,7 @@ func keys1(m map[int]bool) []int {
 
 func runC14(c *fw.Ctx) {
 	c.Level = "fault_enumeration"
-	c.Rule = "seeded placements of 1-2 publishers and 1-4 subscribers (1-2 filters each) over 2-3 broker nodes connected by real gRPC (bufconn) with manual gossip; for every topic of the list, every publisher and EVERY subset of the other nodes made unreachable at the RPC boundary, one tagged publish (QoS 1 and QoS 2 alternating, full handshake). Observed: Append calls per node and tag (recording log), RPC calls, PUBACKs, packets at every subscriber after a sentinel barrier. Oracle: appends(tag,node) = 1 iff the node hosts a matching subscription and is reachable (or is the publisher's node), else 0; one delivery per matching filter from the subscriber's own node; acknowledgement withheld iff an unreachable node is a destination. distinct = (placement, topic, publisher, unreachable subset); non-trivial = the publish has >=1 destination node"
+	c.Rule = "seeded placements of 1-2 publishers and 1-4 subscribers (1-2 filters each) over 2-3 broker nodes connected by real gRPC (bufconn) with manual gossip; for every topic of the list, every publisher and EVERY subset of the other nodes made unreachable at the RPC boundary, one tagged publish (QoS 1 and QoS 2 alternating, full handshake). Observed: Append calls per node and tag (recording log), RPC calls, PUBACKs, packets at every subscriber after a sentinel barrier. Oracle: appends(tag,node) = 1 iff the node hosts a matching subscription and is reachable (or is the publisher's node), else 0; one delivery per matching filter from the subscriber's own node; acknowledgement withheld iff an unreachable node is a destination; in a quarter of the cases the reply of one reachable destination is lost once after the node appended (still exactly one append and one delivery; the acknowledgement is not judged); epilogue: a subscriber unsubscribes between publishes on one topic and must not receive the later ones. distinct = (placement, topic, publisher, unreachable subset); non-trivial = the publish has >=1 destination node"
 	c.Assume("subscriptions are gossiped to every node before publishing (gossip barrier), so 'known to the publishing node' = all")
 	c.Assume("a wrongly sent acknowledgement is looked for until the end of the scenario (sentinel barrier + 100 ms)")
 	n := c.Pick(40, 400)
